@@ -228,6 +228,9 @@ def run_history(ev, fa, fb, fc, n):
                 peer_done = True
                 peer_dead = True
                 o.applied.append('in:ERROR')
+                if role == 'rr_req' and concb(c):
+                    o.applied[-1] += '(application-acts-before-the-loop-runs)'
+                    continue          # race: the ERROR is queued for the receiver, the next (local) event comes first
             elif e == CANCEL:
                 if peer_cancelled or peer_dead or peer_midfrag:
                     continue
@@ -323,6 +326,13 @@ def run_history(ev, fa, fb, fc, n):
                     o.lost_how = 'close'
                 o.closed = True
                 o.applied.append('loss:' + o.lost_how)
+                if role == 'rr_req' and o.lost_how != 'close' and concb(c) and i + 1 < len(ev) and ALPHA[ev[i + 1]] == L_CANCEL and not o.fut.done():
+                    # race: the loss is queued for the receiver, the application cancels before the loop runs
+                    o.applied[-1] += '(application-cancels-before-the-loop-runs)'
+                    o.cancel_at = (0, len(t.sent))
+                    o.fut.cancel()
+                    o.app_cancelled = True
+                    o.cancel_peer_done = True
             loop.run_ready()
             # a partial frame received BEFORE the interaction ended must be dropped when it ends (fragments that arrive
             # afterwards from a peer that is still mid-frame are transient and judged separately; a closed connection's
